@@ -14,7 +14,8 @@
 //!   req <r> <io|ooo> <P>   declare request r (r = 0,1,2 in order) with stream mode and view program P
 //!   start <r>              build_response + poll its future once (runs the component bodies, yields the stream)
 //!   fire <r> <g>           complete gate g of request r
-//!   ps <r>                 poll r's stream until it ends or returns Pending 8 times in a row
+//!   ps <r>                 everything r can do alone with the gates fired so far: poll r's ready tasks until none is
+//!                          ready, poll r's stream until it ends or returns Pending 8 times in a row; repeat to a fixpoint
 //!   poll <i>               poll the (i mod len)-th entry of the executor's ready list
 //!   drop <r>               drive r alone to completion (its stream ends with `owner.unset()`, as in `from_app`), drop the stream
 //!   end                    `drop` every remaining started request in ascending order; print observation + verdict
@@ -379,6 +380,7 @@ enum Act {
 }
 
 struct Req {
+    me: u32,
     ooo: bool,
     prog: P,
     gates: Vec<u32>,
@@ -394,10 +396,11 @@ struct Req {
 }
 
 impl Req {
-    fn new(ooo: bool, prog: P) -> Self {
+    fn new(me: u32, ooo: bool, prog: P) -> Self {
         let mut gates = vec![];
         gates_of(&prog, &mut gates);
         Req {
+            me,
             ooo,
             prog,
             gates,
@@ -444,7 +447,7 @@ impl World {
     fn start(&mut self, r: usize) {
         self.guarded(r, |w| {
             let q = &mut w.reqs[r];
-            let me = r as u32;
+            let me = q.me;
             let mut rxs = HashMap::new();
             for g in q.gates.clone() {
                 let (tx, rx) = oneshot::channel::<()>();
@@ -530,8 +533,36 @@ impl World {
         });
     }
 
+    /// run r's own ready tasks until none is ready
+    fn run_own_tasks(&mut self, r: usize) -> usize {
+        let mut n = 0;
+        for _ in 0..10_000 {
+            let rd = sched::ready();
+            let Some(&id) = rd.iter().find(|id| self.reqs[r].tasks.contains(id)) else { break };
+            self.guarded(r, |_| {
+                sched::poll(id);
+            });
+            n += 1;
+        }
+        n
+    }
+
+    /// everything r can do by itself with the gates fired so far: its ready tasks, then its stream, to a fixpoint
+    fn progress(&mut self, r: usize) {
+        for _ in 0..64 {
+            let n = self.run_own_tasks(r);
+            let before = self.reqs[r].html.len();
+            self.ps_inner(r);
+            let rd = sched::ready();
+            let more = rd.iter().any(|id| self.reqs[r].tasks.contains(id));
+            if self.reqs[r].stream_done || (n == 0 && !more && self.reqs[r].html.len() == before) {
+                break;
+            }
+        }
+    }
+
     fn ps(&mut self, r: usize) {
-        self.ps_inner(r);
+        self.progress(r);
         self.reqs[r].acts.push(Act::Ps);
     }
 
@@ -577,42 +608,24 @@ impl World {
                 });
             }
         }
-        for _ in 0..64 {
-            for _ in 0..10_000 {
-                let rd = sched::ready();
-                let Some(&id) = rd.iter().find(|id| self.reqs[r].tasks.contains(id)) else { break };
-                self.guarded(r, |_| {
-                    sched::poll(id);
-                });
-            }
-            self.ps_inner(r);
-            if self.reqs[r].stream_done {
-                break;
-            }
-        }
+        self.progress(r);
         self.guarded(r, |w| {
             let q = &mut w.reqs[r];
             q.stream = None;
             q.txs.clear();
         });
         // tasks woken by the disposal (channel closed) finish here
-        for _ in 0..10_000 {
-            let rd = sched::ready();
-            let Some(&id) = rd.iter().find(|id| self.reqs[r].tasks.contains(id)) else { break };
-            self.guarded(r, |_| {
-                sched::poll(id);
-            });
-        }
+        self.run_own_tasks(r);
         self.reqs[r].dropped = true;
         self.reqs[r].acts.push(Act::Finish);
     }
 }
 
-fn solo(ooo: bool, prog: &P, acts: &[Act]) -> (String, Vec<Rec>, bool, bool) {
+fn solo(me: u32, ooo: bool, prog: &P, acts: &[Act]) -> (String, Vec<Rec>, bool, bool) {
     sched::reset();
     LOG.lock().unwrap().clear();
     let mut w = World::new();
-    w.reqs.push(Req::new(ooo, prog.clone()));
+    w.reqs.push(Req::new(me, ooo, prog.clone()));
     for a in acts {
         match a {
             Act::Start => w.start(0),
@@ -699,6 +712,51 @@ fn prog_tags(p: &P, under_async: bool, out: &mut BTreeSet<&'static str>) {
     }
 }
 
+/// the known-finding class (F-C20-1): a leaf that looks its context up lazily (reactive closure, `For`) in the
+/// view produced by a Suspend that is not inside a Suspense, with no Provider/Suspense between them: it is
+/// rendered by the response stream's poll, outside every `ScopedFuture` / `OwnedView`
+fn exposed(p: &P, late: bool, covered: bool) -> bool {
+    match p {
+        P::L(_) | P::F(..) => late && !covered,
+        P::E(_) | P::C(_) | P::R(..) => false,
+        P::V(_, c) => exposed(c, late, true),
+        P::U(_) => false,
+        P::S(_, _, _, c) => exposed(c, true, false),
+        P::Q(v) => v.iter().any(|c| exposed(c, late, covered)),
+    }
+}
+
+/// a Suspense / another async boundary / a Provider in the late view of a bare Suspend (class F-C20-2 for
+/// Suspense: `OwnedView::to_html_async_with_buf` parks its owner in the AMBIENT owner's cleanups)
+fn late_kind(p: &P, late: bool, out: &mut BTreeSet<&'static str>) {
+    match p {
+        P::L(_) | P::F(..) | P::E(_) | P::C(_) => {}
+        P::R(..) => {
+            if late {
+                out.insert("late-resource");
+            }
+        }
+        P::V(_, c) => {
+            if late {
+                out.insert("late-provider");
+            }
+            late_kind(c, late, out)
+        }
+        P::U(_) => {
+            if late {
+                out.insert("late-suspense");
+            }
+        }
+        P::S(_, _, _, c) => {
+            if late {
+                out.insert("late-suspend");
+            }
+            late_kind(c, true, out)
+        }
+        P::Q(v) => v.iter().for_each(|c| late_kind(c, late, out)),
+    }
+}
+
 fn op(c: &mut Case, line: &str) -> String {
     let w: Vec<&str> = line.split_whitespace().collect();
     let idx = |s: &str, c: &Case| -> Option<usize> {
@@ -719,7 +777,7 @@ fn op(c: &mut Case, line: &str) -> String {
                 return "bad-op".into();
             }
             let Some(p) = parse_prog(p) else { return "bad-op".into() };
-            c.w.reqs.push(Req::new(*mode == "ooo", p));
+            c.w.reqs.push(Req::new(r as u32, *mode == "ooo", p));
             "ok".into()
         }
         ["start", r] => {
@@ -787,10 +845,9 @@ fn op(c: &mut Case, line: &str) -> String {
                     continue;
                 }
                 obs.push(observation(r as u32, &log));
-                let (shtml, slog, sdone, spanic) = solo(*ooo, prog, acts);
+                let (shtml, slog, sdone, spanic) = solo(r as u32, *ooo, prog, acts);
                 let mine: Vec<Rec> = log.iter().filter(|x| x.me == r as u32).cloned().collect();
-                let alone: Vec<Rec> =
-                    slog.into_iter().map(|mut x| { x.me = r as u32; fix_solo(&mut x, r as u32); x }).collect();
+                let alone: Vec<Rec> = slog;
                 if std::env::var("C20_DEBUG").is_ok() {
                     eprintln!("r{r} conc: {html}\nr{r} solo: {shtml}\n conc log {mine:?}\n solo log {alone:?}\n acts {acts:?}");
                 }
@@ -800,7 +857,7 @@ fn op(c: &mut Case, line: &str) -> String {
                 if spanic || !sdone {
                     bad.push(format!("r{r}:solo-broken"));
                 }
-                if *html != rename_solo(&shtml, r as u32) {
+                if *html != shtml {
                     bad.push(format!("r{r}:html"));
                 } else if mine != alone {
                     bad.push(format!("r{r}:log"));
@@ -812,13 +869,6 @@ fn op(c: &mut Case, line: &str) -> String {
         _ => "bad-op".into(),
     }
 }
-
-/// the solo replay runs the program as request index 0 of its own world but with the SAME tag number:
-/// nothing to rename (kept as functions so the convention is in one place)
-fn rename_solo(html: &str, _r: u32) -> String {
-    html.to_string()
-}
-fn fix_solo(_x: &mut Rec, _r: u32) {}
 
 fn main() {
     #[cfg(feature = "sandbox")]
@@ -843,6 +893,10 @@ fn main() {
                     ["req", _, mode, p] => {
                         if let (Some(t), Some(p)) = (case_tags.last_mut(), parse_prog(p)) {
                             prog_tags(&p, false, t);
+                            late_kind(&p, false, t);
+                            if exposed(&p, false, false) {
+                                t.insert("exposed");
+                            }
                             t.insert(if *mode == "ooo" { "ooo" } else { "in-order" });
                         }
                     }
@@ -870,6 +924,130 @@ fn main() {
     }
 }
 
-fn gen(_seed: u64, _n: usize, ops: &str, _tier: &str) {
-    std::fs::write(ops, "").unwrap();
+// ------------------------------------------------------------------ generator
+
+struct G {
+    rng: Rng,
+    leaf: u32,
+    gate: u32,
+}
+
+impl G {
+    fn leaf(&mut self) -> u32 {
+        self.leaf += 1;
+        self.leaf
+    }
+    fn gate(&mut self) -> u32 {
+        self.gate += 1;
+        self.gate
+    }
+    /// `exposed_ok`: may a bare Suspend (outside any Suspense) be given a child that renders lazily?
+    fn sync_leaf(&mut self) -> P {
+        match self.rng.below(10) {
+            0..=4 => P::L(self.leaf()),
+            5..=6 => P::E(self.leaf()),
+            7 => P::C(self.leaf()),
+            _ => P::F(self.rng.range(1, 3) as u32, self.leaf()),
+        }
+    }
+    fn prog(&mut self, depth: u32, in_suspense: bool, safe: bool) -> P {
+        if depth == 0 {
+            return self.sync_leaf();
+        }
+        match self.rng.below(14) {
+            0..=1 => self.sync_leaf(),
+            2..=3 => {
+                let k = self.rng.range(1, 9) as u32;
+                P::V(k, Box::new(self.prog(depth - 1, in_suspense, safe)))
+            }
+            4..=6 => {
+                let (g, a, b) = (self.gate(), self.leaf(), self.leaf());
+                // the child of a Suspend is built after the await
+                let child = if !in_suspense && safe {
+                    // outside Suspense the rendered child must not look anything up lazily (known class)
+                    match self.rng.below(3) {
+                        0 => P::E(self.leaf()),
+                        1 => P::V(self.rng.range(1, 9) as u32, Box::new(P::E(self.leaf()))),
+                        _ => P::Q(vec![P::E(self.leaf()), P::C(self.leaf())]),
+                    }
+                } else {
+                    self.prog(depth - 1, in_suspense, safe)
+                };
+                P::S(g, a, b, Box::new(child))
+            }
+            7..=9 => P::U(Box::new(self.prog(depth - 1, true, safe))),
+            10..=11 => P::R(self.gate(), self.leaf(), self.leaf()),
+            _ => {
+                let n = self.rng.range(2, 3);
+                P::Q((0..n).map(|_| self.prog(depth - 1, in_suspense, safe)).collect())
+            }
+        }
+    }
+}
+
+fn gen_case(rng: &mut Rng, name: &str, out: &mut String, tier: &str) {
+    let nreq = if rng.chance(7, 10) { 2 } else { 3 };
+    let safe = rng.chance(3, 4);
+    let mut progs = vec![];
+    out.push_str(&format!("case {name}\n"));
+    for r in 0..nreq {
+        let mut g = G { rng: rng.clone(), leaf: 0, gate: 0 };
+        let depth = if tier == "thorough" { rng.range(1, 4) } else { rng.range(1, 3) } as u32;
+        let p = g.prog(depth, false, safe);
+        *rng = g.rng;
+        let mode = if rng.chance(1, 2) { "io" } else { "ooo" };
+        out.push_str(&format!("req {r} {mode} {}\n", show_prog(&p)));
+        let mut gs = vec![];
+        gates_of(&p, &mut gs);
+        progs.push(gs);
+    }
+    // schedule
+    let mut started = vec![false; nreq];
+    let mut dropped = vec![false; nreq];
+    let mut unfired: Vec<Vec<u32>> = progs.clone();
+    let len = rng.range(nreq + 2, nreq + 14);
+    for step in 0..len {
+        let not_started: Vec<usize> = (0..nreq).filter(|&r| !started[r]).collect();
+        let live: Vec<usize> = (0..nreq).filter(|&r| started[r] && !dropped[r]).collect();
+        let must_start = !not_started.is_empty() && (live.is_empty() || step + not_started.len() >= len);
+        let c = rng.below(12);
+        if must_start || (!not_started.is_empty() && c < 3) {
+            let r = *rng.pick(&not_started);
+            started[r] = true;
+            out.push_str(&format!("start {r}\n"));
+            continue;
+        }
+        if live.is_empty() {
+            continue;
+        }
+        let r = *rng.pick(&live);
+        match c {
+            0..=5 if !unfired[r].is_empty() => {
+                let k = rng.below(unfired[r].len());
+                let g = unfired[r].remove(k);
+                out.push_str(&format!("fire {r} {g}\n"));
+            }
+            0..=7 => out.push_str(&format!("poll {}\n", rng.below(4))),
+            8..=10 => out.push_str(&format!("ps {r}\n")),
+            _ => {
+                dropped[r] = true;
+                out.push_str(&format!("drop {r}\n"));
+            }
+        }
+    }
+    for r in 0..nreq {
+        if !started[r] {
+            out.push_str(&format!("start {r}\n"));
+        }
+    }
+    out.push_str("end\n");
+}
+
+fn gen(seed: u64, n: usize, ops: &str, tier: &str) {
+    let mut rng = Rng::new(seed);
+    let mut out = String::new();
+    for i in 0..n {
+        gen_case(&mut rng, &format!("g{i}"), &mut out, tier);
+    }
+    std::fs::write(ops, out).unwrap();
 }
